@@ -439,10 +439,7 @@ impl<V: Clone + Send + Sync + 'static> PartitionedState<V> {
 
     /// Cleans up all spill files.
     pub fn cleanup(&mut self) {
-        for file in self.spill_files.iter_mut().flatten() {
-            let bytes = file.bytes_written();
-            self.manager.unregister_spilled_bytes(bytes);
-        }
+        self.delete_spill_files();
 
         self.spill_files.clear();
         self.partitions.clear();
@@ -454,13 +451,21 @@ impl<V: Clone + Send + Sync + 'static> PartitionedState<V> {
     }
 }
 
+impl<V> PartitionedState<V> {
+    /// Deletes the spill files of all partitions that are on disk.
+    fn delete_spill_files(&mut self) {
+        for slot in &mut self.spill_files {
+            if let Some(file) = slot.take() {
+                let _ = self.manager.delete_file(file);
+            }
+        }
+    }
+}
+
 impl<V> Drop for PartitionedState<V> {
     fn drop(&mut self) {
-        // Unregister spilled bytes
-        for file in self.spill_files.iter().flatten() {
-            let bytes = file.bytes_written();
-            self.manager.unregister_spilled_bytes(bytes);
-        }
+        // Whatever is still spilled is of no use to anybody once the state is gone
+        self.delete_spill_files();
     }
 }
 
@@ -829,5 +834,31 @@ mod tests {
 
         // Verify update
         assert_eq!(state.get(&key(&[1])).unwrap(), Some(&200));
+    }
+
+    #[test]
+    fn test_cleanup_and_drop_delete_spill_files() {
+        let (temp_dir, manager) = create_manager();
+        let files = || std::fs::read_dir(temp_dir.path()).unwrap().count();
+
+        let mut state: PartitionedState<i64> =
+            PartitionedState::new(Arc::clone(&manager), 1, serialize_i64, deserialize_i64);
+        state.insert(key(&[1]), 10).unwrap();
+        state.spill_largest().unwrap();
+        assert_eq!(files(), 1);
+
+        state.cleanup();
+        assert_eq!(files(), 0);
+        assert_eq!(manager.active_file_count(), 0);
+        assert_eq!(manager.spilled_bytes(), 0);
+
+        state.insert(key(&[2]), 20).unwrap();
+        state.spill_largest().unwrap();
+        assert_eq!(files(), 1);
+
+        drop(state);
+        assert_eq!(files(), 0);
+        assert_eq!(manager.active_file_count(), 0);
+        assert_eq!(manager.spilled_bytes(), 0);
     }
 }
